@@ -11,6 +11,7 @@ import (
 	"verif/sim/checks"
 	"verif/sim/core"
 	_ "verif/sim/cachesim"
+	_ "verif/sim/chainsim"
 	_ "verif/sim/fcsim"
 	_ "verif/sim/poolsim"
 	_ "verif/sim/schedsim"
